@@ -62,6 +62,23 @@ FORM_POINTS = [TA.option_point(),
                TA.option_point(remove_lines=['b']),
                TA.option_point(max_permutation_cases=2),
                TA.option_point(preprocess='drop_eacute')]
+# permutation layer: the full product with the permitted number of cases up
+# to 5 (768 points); through the entry points: that number x <= 1 other option
+PERM_FULL = TA.option_points(mpcs=TA.PERM_MPCS)
+PERM_ENTRY = [TA.option_point(max_permutation_cases=m, **o)
+              for m in (0, 1, 2, 3, 4)
+              for o in ({}, {'lstrip': True}, {'rstrip': True},
+                        {'ignore_patterns': [r'\d+']},
+                        {'ignore_patterns': [r'^a\d+$']})]
+# long texts: default, each line-level option alone, permutation allowance
+LONG_POINTS = [TA.option_point(),
+               TA.option_point(rstrip=True),
+               TA.option_point(ignore_substrings=['X']),
+               TA.option_point(ignore_patterns=[r'\d+']),
+               TA.option_point(remove_lines=['b']),
+               TA.option_point(preprocess='drop_eacute'),
+               TA.option_point(max_permutation_cases=2),
+               TA.option_point(max_permutation_cases=3)]
 FORM_ALPHA_Q = ['a', 'é', '']
 FORM_ALPHA_T = ['a', 'é', '', ' a', 'b']
 
@@ -81,6 +98,12 @@ class C04(Check):
     rule = ('case = one (actual, reference) pair of line sequences over the '
             '9-line alphabet (length <=2 quick, <=3 thorough; single lines '
             'over a 32-line alphabet), swept over all 512 option points; '
+            'permutation cases = every permutation of 3-4 distinct lines out '
+            'of 5, plain / with one further line altered at every position / '
+            'with one further differing pair inserted at every position, '
+            'swept over 768 option points (permitted cases 0..5) and through '
+            'the entry points; long-text cases = 200/1000/5000 lines or '
+            '5000/100000-character lines with one of 9 named deviations; '
             'entry-point cases = pairs over a 5-line alphabet x the 30 option '
             'points that set <= 2 (or all 7) options (thorough: a second '
             '5-line alphabet, and all 512 points) '
@@ -115,7 +138,13 @@ class C04(Check):
                            '(must pass)'),
              ('lines', 'single-line pairs over the extended line alphabet'),
              ('seq2', 'all pairs of sequences of length <= 2'),
+             ('perm', 'permutations of 3-4 distinct lines, also with one '
+                      'further line altered / one differing pair inserted at '
+                      'every position, x 768 option points (limit 0..5)'),
              ('entry', 'public entry points on real files'),
+             ('perm-entry', 'the permutation space through the entry points'),
+             ('long', 'many lines (200..5000) and long lines (5000, 100000 '
+                      'characters) with one named deviation'),
              ('forms', 'file forms: final newline, CRLF, CR, empty, missing '
                        'reference')]
         if tier == 'thorough':
@@ -141,6 +170,27 @@ class C04(Check):
                 for e in TA.sequences(TA.LAMBDA, 2):
                     if a != e:
                         yield {'k': 'sweep', 'a': a, 'e': e}
+        elif layer == 'perm':
+            for a, e in TA.permutation_pairs():
+                yield {'k': 'sweep', 'a': a, 'e': e, 'pts': 'perm'}
+        elif layer == 'perm-entry':
+            lines = TA.PERM_LINES if tier == 'thorough' else TA.PERM_LINES[:4]
+            extras = TA.PERM_EXTRA if tier == 'thorough' \
+                else TA.PERM_EXTRA[:1]
+            for a, e in TA.permutation_pairs(lines, extras=extras):
+                yield {'k': 'entry', 'a': a, 'e': e,
+                       'fa': ['\n', 1], 'fe': ['\n', 1], 'pts': 'perm-entry'}
+        elif layer == 'long':
+            for n in TA.LONG_SIZES:
+                for dev in TA.LONG_DEVIATIONS:
+                    yield {'k': 'long', 'n': n, 'dev': dev, 'width': 0}
+            for width in (5000, 100000):
+                for n in (1, 3):
+                    for dev in TA.LONG_DEVIATIONS:
+                        if n == 1 and 'swap' in dev:
+                            continue
+                        yield {'k': 'long', 'n': n, 'dev': dev,
+                               'width': width}
         elif layer in ('entry', 'entry-full'):
             alphas = [TA.LAMBDA_R]
             if tier == 'thorough' and layer == 'entry':
@@ -188,7 +238,11 @@ class C04(Check):
         self.fc = FilesComparison(verbose=False, tmp_dir=self.box.tmp)
         self.full_kw = [TA.kwargs_of(p) for p in FULL]
         self.full_mo = [model_opts(p) for p in FULL]
-        self.sets = {'full': FULL, 'q': ENTRY_Q, 'form': FORM_POINTS}
+        self.sets = {'full': FULL, 'q': ENTRY_Q, 'form': FORM_POINTS,
+                     'perm': PERM_FULL, 'perm-entry': PERM_ENTRY}
+        self.sweep_kw = {'full': (self.full_kw, self.full_mo),
+                         'perm': ([TA.kwargs_of(p) for p in PERM_FULL],
+                                  [model_opts(p) for p in PERM_FULL])}
 
     def teardown_worker(self):
         box = getattr(self, 'box', None)
@@ -335,6 +389,8 @@ class C04(Check):
             return self.run_sweep(case)
         if case['k'] == 'entry':
             return self.run_entry(case)
+        if case['k'] == 'long':
+            return self.run_long(case)
         return self.run_missing(case)
 
     def run_sweep(self, case):
@@ -344,7 +400,10 @@ class C04(Check):
         tally = {}
         bits = bytearray()
         verdicts = set()
-        for i, (kw, mo) in enumerate(zip(self.full_kw, self.full_mo)):
+        pts = case.get('pts', 'full')
+        points = self.sets[pts]
+        kws, mos = self.sweep_kw[pts]
+        for i, (kw, mo) in enumerate(zip(kws, mos)):
             real = self.real_strings(a, e, kw)
             m = TS.evaluate(a, e, mo)
             v = m.verdict
@@ -358,13 +417,73 @@ class C04(Check):
             kind = self.violation_kind(real, v)
             if kind:
                 bad[i] = kind
-        R.ev(len(FULL))
+        R.ev(len(points))
         for k, n in tally.items():
             R.out(k, n)
         R.out('vector:%08x' % zlib.crc32(bytes(bits)))
         R.nontrivial = TS.MUST_PASS in verdicts and TS.MUST_FAIL in verdicts
         if bad:
-            self.report(R, a, e, FULL, bad, 'check_strings')
+            self.report(R, a, e, points, bad, 'check_strings')
+        return R
+
+    def run_long(self, case):
+        """Many lines / long lines with one named deviation, through
+        check_strings and the entry points.  No shrinking here (the input is
+        generated from three parameters, which name the signature)."""
+        R = Res()
+        box = self.box
+        n, dev, width = case['n'], case['dev'], case['width']
+        a, e = TA.long_text(n, dev, width)
+        ta, te = TA.content(a), TA.content(e)
+        box.clean(box.ref, box.act, box.tmp)
+        ref = os.path.join(box.ref, 'ref.txt')
+        act = os.path.join(box.act, 'out.txt')
+        box.write(ref, te)
+        box.write(act, ta)
+        verdicts = set()
+        for i, p in enumerate(LONG_POINTS):
+            if width and p['ignore_patterns']:
+                continue        # pattern readings on 100k-character lines
+            kw = TA.kwargs_of(p)
+            m = TS.evaluate(a, e, model_opts(p))
+            verdicts.add(m.verdict)
+            if m.verdict == TS.UNSPEC:
+                R.unspec += 1
+            seen = []
+            for name, fn in (
+                    ('check_strings', lambda: (self.real_strings(a, e, kw),
+                                               None)),
+                    ('assertStringCorrect', lambda: box.call(
+                        'assertStringCorrect', ta, ref, **kw)),
+                    ('assertTextFileCorrect', lambda: box.call(
+                        'assertTextFileCorrect', act, ref, **kw)),
+                    ('assertTextFilesCorrect', lambda: box.call(
+                        'assertTextFilesCorrect', [act, ref], [ref, ref],
+                        **kw))):
+                rk, info = fn()
+                if isinstance(rk, tuple):
+                    rk, info = 'error', rk[1]
+                R.ev()
+                seen.append(rk[0])
+                if rk != 'pass':
+                    box.clean(box.tmp)
+                real = rk if rk != 'error' else ('error', info)
+                kind = self.violation_kind(real, m.verdict)
+                if kind:
+                    R.viol('%s:long-text:%s:%s:%s' % (
+                        kind, dev, TA.option_label(p),
+                        'check_strings' if name == 'check_strings'
+                        else 'entry-points'),
+                        self.CLAUSES[kind],
+                        {'entry': name, 'lines': n, 'line_width': width,
+                         'deviation': dev, 'options': dict(
+                             (k, v) for k, v in p.items()
+                             if v != TA.DEFAULT_POINT[k]),
+                         'model': m.verdict, 'model_basis': m.why,
+                         'tdda': rk if rk != 'error' else repr(info)[:300]},
+                        sub={'point': i, 'entry': name})
+            R.out('%s|%s' % (''.join(seen), m.verdict))
+        R.nontrivial = dev != 'none'
         return R
 
     def run_entry(self, case):
